@@ -64,7 +64,25 @@ def proof_status(prop, st):
     return n, discharged, broken
 
 
+VEC_ASSUMPTIONS = [
+    "the arena grants every valid layout below 2^40 bytes and refuses larger ones (the drivers never ask for sizes in between)",
+    "std::vec::Vec (the oracle the property names) is correct",
+    "elements are identities with observable Drop/Clone; callbacks are scripted (return true/false or panic, at most one panic per script)",
+    "the correspondence drivers explore generated programs; the theorems cover all arguments and lengths of the model",
+]
+
+ENGINES = {}
+
+
 def arena_check(prop, tier, seed):
+    return engine_check(prop, tier, seed, B.arena_run, B.MISMATCH_PROPS, ARENA_ASSUMPTIONS, "arena_driver", "arena_check")
+
+
+def vec_check(prop, tier, seed):
+    return engine_check(prop, tier, seed, B.vec_run, B.VEC_MISMATCH_PROPS, VEC_ASSUMPTIONS, "vec_driver", "vec_check")
+
+
+def engine_check(prop, tier, seed, run_fn, table, assumptions, driver, checker):
     t0 = time.time()
     st = prepare(prop)
     violations = []      # (line printed, replay path)
@@ -75,14 +93,17 @@ def arena_check(prop, tier, seed):
         print("VIOLATION property=%s replay=%s no-failing-input-found" % (prop, path))
         B.write_evidence(prop, tier, seed, "proof",
                          {"obligations": 1, "discharged": 0, "checker_cmd": "cargo build", "trusted_base": B.TRUSTED_BASE,
-                          "explanation": "the hooked crate or the harness does not build"}, ARENA_ASSUMPTIONS,
+                          "explanation": "the hooked crate or the harness does not build"}, assumptions,
                          time.time() - t0, 1)
         return 1
     n_obl, n_dis, broken = proof_status(prop, st)
     if not st["ocaml_ok"]:
         broken.append("extraction / OCaml checker build failed: " + st["ocaml_log"][-400:])
-    run = B.arena_run(tier, seed) if st["ocaml_ok"] else {"reports": [], "summaries": [], "wall_s": 0, "cached": False}
-    spec, mism = B.reports_for(prop, run)
+    run = run_fn(tier, seed) if st["ocaml_ok"] else {"reports": [], "summaries": [], "wall_s": 0, "cached": False}
+    spec, mism = B.reports_for(prop, run, table)
+    for d in spec + mism:
+        d["driver"] = driver
+        d["checker"] = checker
     # 1. spec predicate fails on the implementation: a concrete failing history
     seen_sig = set()
     for d in spec:
@@ -112,8 +133,11 @@ def arena_check(prop, tier, seed):
             found = None
             if st["ocaml_ok"] and tier == "quick" and not os.environ.get("BV_NO_SEARCH"):
                 for extra in range(1, 4):
-                    r2 = B.arena_run(tier, seed + 7919 * extra, extra_tag="_search")
-                    s2, _ = B.reports_for(prop, r2)
+                    r2 = run_fn(tier, seed + 7919 * extra, extra_tag="_search")
+                    s2, _ = B.reports_for(prop, r2, table)
+                    for d in s2:
+                        d["driver"] = driver
+                        d["checker"] = checker
                     s2 = [d for d in s2 if not B.known_match(prop, d)]
                     if s2:
                         found = s2[0]
@@ -150,7 +174,7 @@ def arena_check(prop, tier, seed):
         "proof_broken": broken,
         "evaluations": tot["histories"],
         "distinct_nontrivial": tot["distinct_nontrivial"],
-        "rule": "random histories from one PRNG state (seed, history id), debug and release builds, MIN_ALIGN in {1,2,4,8,16}; a history is non-trivial if it reached the slow path, an allocator refusal, an in-place grow/shrink copy, a multi-chunk reset, a failed initialiser or a limit refusal; distinct by hash of its (op,size,align) sequence",
+        "rule": "(engine %s) random histories from one PRNG state (seed, history id), debug and release builds, MIN_ALIGN in {1,2,4,8,16}; a history is non-trivial if it reached the slow path, an allocator refusal, an in-place grow/shrink copy, a multi-chunk reset, a failed initialiser or a limit refusal; distinct by hash of its (op,size,align) sequence" % driver,
         "traces_validated_against_impl": tot["histories"],
         "operations": tot["ops"],
         "histogram": histo,
@@ -164,13 +188,15 @@ def arena_check(prop, tier, seed):
         print(l)
     for v in violations:
         print(v)
-    B.write_evidence(prop, tier, seed, "proof", cov, ARENA_ASSUMPTIONS, time.time() - t0, len(violations))
+    B.write_evidence(prop, tier, seed, "proof", cov, assumptions, time.time() - t0, len(violations))
     return 1 if violations else 0
 
 
 def check(prop, tier, seed):
     if prop in B.ARENA_PROPS:
         return arena_check(prop, tier, seed)
+    if prop in B.VEC_PROPS:
+        return vec_check(prop, tier, seed)
     print("no engine for %s" % prop, file=sys.stderr)
     return 2
 
@@ -183,11 +209,11 @@ def replay(prop, path):
     if r.get("seed") is None:
         print("replay file names a proof obligation / correspondence, not an input: %s" % r.get("theorem_or_observable"))
         return check(prop, "quick", int(os.environ.get("VERIF_SEED", "20260930")))
-    drv = B.bin_path(r.get("mode", "debug"), "arena_driver")
+    drv = B.bin_path(r.get("mode", "debug"), r.get("driver", "arena_driver"))
     import subprocess
     p1 = subprocess.run([drv, "gen", str(r["seed"]), "1", str(r.get("maxops", 60) or 60), str(r["hid"])],
                         stdout=subprocess.PIPE, timeout=600)
-    p2 = subprocess.run([os.path.join(B.OCAML_BUILD, "arena_check")], input=p1.stdout, stdout=subprocess.PIPE, timeout=600)
+    p2 = subprocess.run([os.path.join(B.OCAML_BUILD, r.get("checker", "arena_check"))], input=p1.stdout, stdout=subprocess.PIPE, timeout=600)
     out = p2.stdout.decode()
     bad = [l for l in out.split("\n") if (l.startswith("SPEC") and ("prop=%s " % prop) in l)]
     for l in bad:
